@@ -49,7 +49,7 @@ GoodAfter(e) ==
 ArmedAfter(e) ==
   CASE e.a = "Open" -> FALSE
     [] e.a = "Report" -> ArmedAfterReport(e.args.w, e.args.l, e.args.e)
-    [] e.a = "ReportApply" -> ArmedAfterEffect
+    [] e.a = "ReportApply" -> ArmedAfterApply(pend[e.args.i].l, pend[e.args.i].e)
     [] e.a \in {"Shrink", "Expand", "Skip", "ReportCheck"} -> armed
     [] e.a = "Expire" -> IF fo.on /\ armed THEN FALSE ELSE armed
     [] e.a = "Remove" -> IF exists THEN FALSE ELSE armed
@@ -57,7 +57,7 @@ ArmedAfter(e) ==
 
 TaintAfter(e) ==
   CASE e.a = "Open" -> FALSE
-    [] e.a = "ReportApply" -> taint \/ Stale(pend[e.args.i].l, pend[e.args.i].e)
+    [] e.a = "ReportApply" -> TaintAfterApply(pend[e.args.i].l, pend[e.args.i].e)
     [] OTHER -> taint
 
 PropOf(e) ==
